@@ -181,12 +181,16 @@ func plan(thorough bool) []search {
 	full := regionx.Alphabet{Coords: allCoords, Sizes: allSizes, OverSizes: overSizes, ZeroWrite: true, Pad: true, Reopen: true}
 	mid := regionx.Alphabet{Coords: allCoords, Sizes: []int{4092, 4093, 8189}, OverSizes: overSizes[:1], Pad: true, Reopen: true}
 	big := regionx.Alphabet{Coords: allCoords[:2], Sizes: []int{1, 4093, regionx.MaxPayload}, OverSizes: overSizes, Reopen: true}
+	// writes only, all four coordinates, one/two/three sectors: deep enough for histories such as "three chunks, the
+	// last one grows twice, a fourth chunk arrives" (bookkeeping that goes stale only after a particular growth path)
+	grow := regionx.Alphabet{Coords: allCoords, Sizes: []int{1, 4093, 8189}}
 	if !thorough {
 		return []search{
 			{"full-alphabet", full, 3, true, false, 18 * time.Second},
 			{"fixpoint-2coords-3sizes", fixA, 0, true, true, 12 * time.Second},
 			{"largest-size", big, 3, false, false, 10 * time.Second},
 			{"mid-alphabet", mid, 4, true, false, 10 * time.Second},
+			{"growth-4coords-3sizes", grow, 6, false, false, 25 * time.Second},
 		}
 	}
 	return []search{ // the longest search last: the run deadline then cuts only its deepest levels
@@ -194,6 +198,7 @@ func plan(thorough bool) []search {
 		{"fixpoint-2coords-3sizes", fixA, 0, true, true, time.Minute},
 		{"largest-size", big, 4, false, false, 90 * time.Second},
 		{"mid-alphabet", mid, 5, true, false, 2 * time.Minute},
+		{"growth-4coords-3sizes", grow, 7, false, false, 3 * time.Minute},
 		{"fixpoint-3coords-4sizes", fixB, 0, true, false, 10 * time.Minute},
 	}
 }
@@ -257,7 +262,7 @@ func main() {
 		exploreSweep(time.Now().Add(60 * time.Second))
 	}
 	if !thorough {
-		deadline = time.Now().Add(50 * time.Second)
+		deadline = time.Now().Add(80 * time.Second)
 	}
 	for _, s := range plan(thorough) {
 		if only != "" && only != "bfs" {
